@@ -414,6 +414,35 @@ def load_known_findings(prop):
     return [e for e in data.get("findings", []) if e.get("property") == prop]
 
 
+class RecCtx(Ctx):
+    """Ctx of a helper process: records the reports instead of writing replay files."""
+
+    def __init__(self, prop, tier, seed):
+        super().__init__(prop, tier, seed)
+        self.reports = []
+
+    def report(self, text, obj, sig):
+        self.reports.append((text, obj, sig))
+
+
+def fresh_process(prop, func, arg, seed, tier, timeout=1800):
+    """Run props.<prop>.<func>(ctx, arg) in a NEW interpreter - joserfc freshly imported, no state left by earlier
+    calls of this run - and return (reports, evaluations, error text or None)."""
+    code = ("import sys, json, importlib\n"
+            f"sys.path.insert(0, {str(ROOT / 'tools')!r})\n"
+            "import common\n"
+            f"mod = importlib.import_module('props.{prop}')\n"
+            f"ctx = common.RecCtx({prop!r}, {tier!r}, {seed})\n"
+            f"getattr(mod, {func!r})(ctx, json.loads({json.dumps(json.dumps(arg))}))\n"
+            "print('FRESH-RESULT ' + json.dumps({'reports': ctx.reports, 'evaluations': ctx.evaluations}, default=repr))\n")
+    p = subprocess.run([sys.executable, "-c", code], stdout=subprocess.PIPE, stderr=subprocess.PIPE, text=True, timeout=timeout, cwd=str(ROOT))
+    for line in p.stdout.splitlines():
+        if line.startswith("FRESH-RESULT "):
+            d = json.loads(line[len("FRESH-RESULT "):])
+            return [tuple(r) for r in d["reports"]], d["evaluations"], None
+    return [], 0, (p.stderr or p.stdout)[-1500:]
+
+
 def ensure_venv():
     """Re-exec under /venv/bin/python (joserfc editable install of /repo) if needed."""
     want = os.environ.get("VERIF_PYTHON", "/venv/bin/python")
